@@ -1371,6 +1371,12 @@ lyd_diff_apply_r(struct lyd_node **first_node, struct lyd_node *parent_node, con
 
         /* with flags */
         match->flags = diff_node->flags;
+        if (match->flags & LYD_DEFAULT) {
+            /* parent NP containers may have become default */
+            lyd_np_cont_dflt_set(lyd_parent(match));
+        } else {
+            lyd_np_cont_dflt_del(lyd_parent(match));
+        }
         break;
     default:
         LOGINT_RET(ctx);
